@@ -191,6 +191,7 @@ func evalValid(view string, b []byte) string {
 var hung = map[string]bool{}
 
 var icmpBroken bool
+var icmpHangs int
 
 func evalGet(view, method string, b []byte) string {
 	buf := tight(b)
@@ -286,6 +287,11 @@ func evalParse(c cfg, spare int, b []byte, stale ...byte) (impl string, fr packe
 	} else if len(b) >= 62 && b[12] == 0x86 && b[13] == 0xdd && b[20] == 58 && b[54] == 129 {
 		echoID = int(b[58])<<8 | int(b[59])
 	}
+	if echoID >= 0 && icmpBroken {
+		// an earlier echo reply panicked or hung inside the process-global waiter table (already reported): the
+		// table's mutex may be held for good, and every further echo reply would block this process; not evaluated
+		return "not-evaluated", fr, perr, buf
+	}
 	if echoID >= 0 && !icmpBroken {
 		r := core.WithTimeout(3*time.Second, func() string {
 			packet.VerifICMPProbe([]uint16{uint16(echoID)}, func() {
@@ -297,6 +303,17 @@ func evalParse(c cfg, spare int, b []byte, stale ...byte) (impl string, fr packe
 		if r != "ok" {
 			icmpBroken = true // a panic inside the locked waiter table leaves it locked for good
 			return r, fr, perr, buf
+		}
+	}
+	if icmpBroken {
+		// the waiter table's mutex may be held for good: any frame that reaches echoNotify would block this process.
+		// Probe the call under a watchdog first (a few witnesses, then the remaining parse lines are not evaluated).
+		if icmpHangs >= 3 {
+			return "not-evaluated", fr, perr, buf
+		}
+		if r := core.WithTimeout(300*time.Millisecond, func() string { s.Parse(append([]byte{}, buf...)); return "ok" }); r == "hang" {
+			icmpHangs++
+			return "hang", fr, perr, buf
 		}
 	}
 	impl = core.Safely(func() string {
@@ -470,6 +487,9 @@ func Eval(c *core.Ctx, line string) *core.Case {
 		}
 		b := core.UnHex(f[6])
 		impl, _, _, _ := evalParse(cf, spare, b, stale...)
+		if impl == "not-evaluated" {
+			return nil
+		}
 		// the model is a function of the bytes within the length: it is sent the same line (spare ignored)
 		mline := "parse " + strings.Join(f[1:5], " ") + " " + f[6]
 		cs := &core.Case{Line: mline, Impl: impl, Trivial: len(b) < 14}
@@ -522,7 +542,7 @@ func Eval(c *core.Ctx, line string) *core.Case {
 		// C01: result must not depend on spare capacity — re-run with a different poison/capacity
 		if spare > 0 {
 			impl0, _, _, _ := evalParse(cf, 0, b)
-			if impl0 != impl {
+			if impl0 != impl && impl0 != "not-evaluated" {
 				cs.Oracle = func() (string, string) {
 					return "Parse result depends on spare capacity:\n  cap=len : " + impl0 + "\n  cap=len+" + f[5] + ": " + impl, ""
 				}
